@@ -534,6 +534,35 @@ where
         }
     };
 
+    match replace_target(env, redir, target_fd, xtrace).await {
+        Ok(exit_status) => {
+            let original = target_fd;
+            Ok((SavedFd { original, save }, exit_status))
+        }
+        Err(error) => {
+            // The target FD has not been modified, so the saved copy is not
+            // needed. Close it so that the failed redirection leaves no FD.
+            if let Some(save) = save {
+                let _: Result<(), Errno> = env.system.close(save);
+            }
+            Err(error)
+        }
+    }
+}
+
+/// Opens the file (or finds the FD) specified by the redirection body and
+/// makes `target_fd` refer to it.
+///
+/// If this function fails, `target_fd` is left intact.
+async fn replace_target<S>(
+    env: &mut Env<S>,
+    redir: &Redir,
+    target_fd: Fd,
+    xtrace: Option<&mut XTrace>,
+) -> Result<Option<ExitStatus>, Error>
+where
+    S: Runtime + 'static,
+{
     // Prepare an FD from the redirection body
     let (fd_spec, location, exit_status) = match &redir.body {
         RedirBody::Normal { operator, operand } => {
@@ -574,8 +603,7 @@ where
         let _: Result<(), Errno> = env.system.close(target_fd);
     }
 
-    let original = target_fd;
-    Ok((SavedFd { original, save }, exit_status))
+    Ok(exit_status)
 }
 
 /// `Env` wrapper for performing redirections.
